@@ -7,6 +7,7 @@
 From Coq Require Import NArith Bool List.
 Import ListNotations.
 From XetModel Require Import Base.Codec Gen.CrashFacts Model.Merkle Model.Shard Model.Crash Proofs.CrashProofs Proofs.CrashHistoryProofs.
+From XetModel Require Import Proofs.CodecProofs Proofs.ShardWholeProofs Proofs.ShardDedupWholeProofs Proofs.MergeProofs.
 Open Scope N_scope.
 
 (* after any prefix of the effects of a safe plan, every file under a final name is complete and consistent with its
@@ -72,7 +73,23 @@ Example C19_history_nonvacuous :
   SafeHistory N hx_final hx_good hx_recs hx_f0 hx_hist /\ run_history hx_f0 hx_hist = [([77], [1; 2]); ([46; 117], [1; 2])].
 Proof. exact history_example. Qed.
 
+
+(* write-before-delete with its premise discharged (C10_merge_covers_inputs): consolidating two serialized shards of a
+   directory is a safe plan for retrievability by file and xorb key as the crate's own readers see it -- the merged shard is
+   written under the name of its content hash, then the inputs are unlinked; no other file of that name with another content *)
+Theorem C19_consolidating_two_shards_is_safe : forall (final : fname -> bool) f t na nb fa ca ta ka cra exa fb cb tb kb crb exb m,
+  let A := w_bs fa ca ta ka cra exa in let B := w_bs fb cb tb kb crb exb in
+  ShardOk fa ca ta ka cra exa -> ShardOk fb cb tb kb crb exb ->
+  ShardOk (union_files (length fa + length fb) fa fb) (union_cas (length ca + length cb) ca cb) (d_ctbl (union_cas (length ca + length cb) ca cb)) zero_hash 0 u64max ->
+  merge_bytes A B = Some m ->
+  flookup f na = Some A -> flookup f nb = Some B ->
+  final t = false -> final (shard_name m) = true -> na <> shard_name m -> nb <> shard_name m -> na <> t -> nb <> t ->
+  (forall c0, flookup f (shard_name m) = Some c0 -> c0 = m) ->
+  SafePlan skey final (fun p c => p = shard_name c) shard_recs f (PWrite t (shard_name m) [m] :: map PUnlink [na; nb]).
+Proof. exact consolidate_pair_safe. Qed.
+
 Print Assumptions C19_crash_at_any_point.
 Print Assumptions C19_group_write_before_delete.
 Print Assumptions C19_consolidation_plan_structure.
 Print Assumptions C19_any_history_of_interrupted_operations.
+Print Assumptions C19_consolidating_two_shards_is_safe.
